@@ -189,6 +189,14 @@ static void pause_any(int who)
 }
 static ABT_pool pool_of(unit_t *u) { return g_pool[u->pool % g_nes][0]; }
 
+/* what the calling ULT reads as its own state: a running unit never sees anything but RUNNING,
+ * whichever way control came back to it (popped by a scheduler or handed over directly) */
+static int self_state(void)
+{
+    ABT_thread t;
+    CHK(ABT_thread_self(&t));
+    return state_of(t);
+}
 static void do_create(int who, unit_t *c)
 {
     uarg_t *a = &UA[c->id][c->inc];
@@ -222,7 +230,7 @@ static void do_join(int who, unit_t *c)
     else if (who > 0 && U[who].kind == U_ULT) {
         int fl = 0;
         CHK(ccall_q(who, &(prim_t){ .kind = PK_JOIN, .th = c->th }, &fl));
-        EV("\"e\":\"JoinRet\",\"by\":%d,\"u\":%d,\"st\":%d,\"tok\":%d", who, c->id, state_of(c->th), c->token);
+        EV("\"e\":\"JoinRet\",\"by\":%d,\"u\":%d,\"st\":%d,\"tok\":%d,\"self\":%d", who, c->id, state_of(c->th), c->token, self_state());
         ctx_log(who, PK_JOIN, fl);
         return;
     } else
@@ -242,7 +250,7 @@ static void do_free(int who, unit_t *c)
         int fl = 0;
         CHK(ccall_q(who, &(prim_t){ .kind = PK_FREE, .pth = &c->th }, &fl));
         isnull = c->th == ABT_THREAD_NULL;
-        EV("\"e\":\"FreeRet\",\"by\":%d,\"u\":%d,\"null\":%d,\"tok\":%d", who, c->id, isnull, c->token);
+        EV("\"e\":\"FreeRet\",\"by\":%d,\"u\":%d,\"null\":%d,\"tok\":%d,\"self\":%d", who, c->id, isnull, c->token, self_state());
         ctx_log(who, PK_FREE, fl);
         if (!c->accounted) {
             c->accounted = 1;
@@ -310,7 +318,7 @@ static void run_script(unit_t *u, int inc)
                     int fl = 0;
                     EV("\"e\":\"Yield\",\"u\":%d", who);
                     CHK(ccall_q(who, &(prim_t){ .kind = PK_YIELD }, &fl));
-                    EV("\"e\":\"Back\",\"u\":%d", who);
+                    EV("\"e\":\"Back\",\"u\":%d,\"self\":%d", who, self_state());
                     ctx_log(who, PK_YIELD, fl);
                 }
                 break;
@@ -326,7 +334,7 @@ static void run_script(unit_t *u, int inc)
                 {
                     int fl = 0;
                     CHK(ccall_q(who, &(prim_t){ .kind = PK_SUSPEND }, &fl));
-                    EV("\"e\":\"Resumed\",\"u\":%d", who);
+                    EV("\"e\":\"Resumed\",\"u\":%d,\"self\":%d", who, self_state());
                     ctx_log(who, PK_SUSPEND, fl);
                 }
                 break;
@@ -1199,10 +1207,29 @@ static void sw_remote(void *arg)
         abtv_idle_hint();
     }
 }
+/* A ULT that acts as the scheduler of the units' pool (ABT_self_schedule): the units then run
+ * as children of this ULT, not of the stream's main scheduler, and every directed switch has to
+ * hand the named unit to the same parent. */
+static void sw_nest_sched(void *a)
+{
+    (void)a;
+    while (!g_sw_over) {
+        ABT_thread t = ABT_THREAD_NULL;
+        CHK(ABT_pool_pop_thread(g_p0, &t));
+        if (t != ABT_THREAD_NULL)
+            CHK(ABT_self_schedule(t, ABT_POOL_NULL));
+        CHK(ABT_thread_yield());
+        abtv_idle_hint();
+    }
+}
 static void scn_switch(void)
 {
     memset(SW, 0, sizeof SW);
     g_p0 = g_pool[0][0];
+    int nest = opt_long("nest", -1) >= 0 ? (int)opt_long("nest", 0) : rnd(3) == 0;
+    ABT_thread nest_th = ABT_THREAD_NULL;
+    if (nest)
+        CHK(ABT_pool_create_basic(ABT_POOL_FIFO, ABT_POOL_ACCESS_MPMC, ABT_FALSE, &g_p0));
     CHK(ABT_pool_create_basic(ABT_POOL_FIFO, ABT_POOL_ACCESS_MPMC, ABT_FALSE, &g_q));
     g_exp_of = -1;
     g_sw_over = 0;
@@ -1214,7 +1241,9 @@ static void scn_switch(void)
     me->id = SW_PRIMARY;
     me->stt = S_RUN;
     CHK(ABT_thread_self(&me->th));
-    EV("\"e\":\"Primary\",\"u\":%d", SW_PRIMARY);
+    EV("\"e\":\"Primary\",\"u\":%d,\"pool\":%d", SW_PRIMARY, nest ? 9 : 0);
+    if (nest)
+        CHK(ABT_thread_create(g_pool[0][0], sw_nest_sched, NULL, ABT_THREAD_ATTR_NULL, &nest_th));
     ABT_thread remote = ABT_THREAD_NULL;
     if (g_nes > 1)
         CHK(ABT_thread_create(g_pool[1][0], sw_remote, NULL, ABT_THREAD_ATTR_NULL, &remote));
@@ -1269,6 +1298,10 @@ static void scn_switch(void)
                i * 10 + SW[i].inc);
         }
     CHK(ABT_pool_free(&g_q));
+    if (nest) {
+        CHK(ABT_thread_free(&nest_th));
+        CHK(ABT_pool_free(&g_p0));
+    }
     EV("\"e\":\"PrimaryDone\",\"u\":%d", SW_PRIMARY);
     sample_blocked("quiet");
 }
